@@ -111,8 +111,33 @@ theorem C18_flatten_build (rfc : Bool) (ord : List (Str × Str) → List (Str ×
     (hd : pathsDistinct pvs = true) (hp : prunePathValues pvs false = S.map Entry.toPV)
     (hc : consistent rfc S = true) (hu : uniformKeys (S.map (·.1)) = true) :
     ∃ m, buildTree rfc ord pvs = .ok (.obj m) ∧
-      ∀ y, y ∈ flattenDoc (schemaOf (S.map (·.1))) (.obj m) ↔ Expected rfc S y :=
-  flatten_build rfc ord hord pvs S hd hp hc hu
+      ∀ y, y ∈ flattenDoc (schemaOf (S.map (·.1))) (.obj m) ↔ Expected rfc S y := by
+  obtain ⟨m, h1, h2, _⟩ := flatten_build rfc ord hord pvs S hd hp hc hu
+  exact ⟨m, h1, h2⟩
+
+/-- List entries are identified by their full key sets, for every key-map order: under the same
+    preconditions the flattener reads no path twice.  An entry split over two items would yield
+    its key leaves twice; together with `C18_flatten_build` (every leaf is read under exactly the
+    path it was configured at, which spells out the full key set of every entry on the way, and
+    nothing else is read) this says: distinct entries are never merged, one entry is never
+    split. -/
+theorem C18_entries_by_full_keyset (rfc : Bool) (ord : List (Str × Str) → List (Str × Str)) (hord : IsOrder ord)
+    (pvs : List PV) (S : List Entry)
+    (hd : pathsDistinct pvs = true) (hp : prunePathValues pvs false = S.map Entry.toPV)
+    (hc : consistent rfc S = true) (hu : uniformKeys (S.map (·.1)) = true) :
+    ∃ m, buildTree rfc ord pvs = .ok (.obj m) ∧
+      ((flattenDoc (schemaOf (S.map (·.1))) (.obj m)).map (·.1)).Nodup ∧
+      (∀ p v j, (p, v) ∈ S → leafJson rfc v = some j → (p, j) ∈ flattenDoc (schemaOf (S.map (·.1))) (.obj m)) ∧
+      (∀ x ∈ S, ∀ y ∈ keyLeavesOfPath x.1, ∃ j, (y.1, j) ∈ flattenDoc (schemaOf (S.map (·.1))) (.obj m)) := by
+  obtain ⟨m, h1, h2, h3⟩ := flatten_build rfc ord hord pvs S hd hp hc hu
+  refine ⟨m, h1, h3, ?_, ?_⟩
+  · intro p v j hx hj
+    exact (h2 (p, j)).2 (Or.inl ((mem_explicitLeaves rfc S p j).2 ⟨v, hx, hj⟩))
+  · intro x hx y hy
+    by_cases hex : y.1 ∈ (explicitLeaves rfc S).map (·.1)
+    · obtain ⟨v, j, hv, hj⟩ := (mem_explicitPaths rfc S y.1).1 hex
+      exact ⟨j, (h2 (y.1, j)).2 (Or.inl ((mem_explicitLeaves rfc S y.1 j).2 ⟨v, hv, hj⟩))⟩
+    · exact ⟨y.2, (h2 y).2 (Or.inr ⟨(mem_impliedLeaves S y).2 ⟨x, hx, hy⟩, hex⟩)⟩
 
 /-- The document never depends on the order in which Go ranges over a key map: any two
     iteration orders give the same result (document or error) for *every* input, well-formed or
